@@ -20,7 +20,8 @@ from sim import runner
 FILES = ["windpyutils/files.py"]
 VARIANTS = ["MutableRandomLineAccessFile", "MutableMemoryMappedRandomLineAccessFile", "MutableRecordFile",
             "MutableMemoryMappedRecordFile"]
-WORDS = ["alpha", "", "two words", " pad ", "žluť", "日本", "a,b", "x" * 30, "0", "{\"k\":1}", "tab\tx", "end.", "trail\t", "blank "]
+WORDS = ["alpha", "", "two words", " pad ", "žluť", "日本", "a,b", "x" * 30, "0", "{\"k\":1}", "tab\tx", "end.", "trail\t", "blank ",
+         "vt\x0bff\x0c", "nel\x85ls\u2028"]
 ENDINGS = ["\n", "\n", "\r\n", "\r", ";"]
 
 
@@ -66,8 +67,13 @@ def build_plan(choice: Choice, tier):
     n_ops = 1 + d(14 if tier == "quick" else 24, "ops")
     if huge:
         n_ops = 1 + d(3, "ops.huge")
+    many_edits = (not huge) and d(50, "ops.many") == 49
+    if many_edits:
+        n_ops = 1030 + d(100, "ops.many.n")     # more single edits on one open object than any small constant
     for _ in range(n_ops):
-        k = d(24, "op")
+        k = d(25, "op")
+        if many_edits and k > 8:
+            k = [0, 1, 2, 3, 5][d(5, "op.edit")]     # mostly edits
         if k == 0:
             ops.append(["set", d(12, "i") - 2, val()])
         elif k == 1:
@@ -107,6 +113,9 @@ def build_plan(choice: Choice, tier):
             ops.append(["contains", d(10, "i")])
         elif k == 23:
             ops.append(["reopen"])      # close() + open(): the edits live in memory and must survive it
+        elif k == 24:
+            # extend / += with an iterable that raises after j items: the items before the failure stay, as in a list
+            ops.append(["extend_raising", [val() for _ in range(d(3, "ext"))], d(2, "ext.iadd")])
         else:
             fault = d(8, "save.fault")
             ops.append(["save", ENDINGS[d(len(ENDINGS), "ending")], d(2, "save.as_handle"),
@@ -288,6 +297,33 @@ def execute(plan, choice, tmpdir, trace):
             i = op[1]
             val = model[i] if i < len(model) else to_item("absent-value")
             expect_same("remove", lambda: obj.remove(val), lambda: model.remove(val), True)
+        elif k == "extend_raising":
+            xs = [to_item(s) for s in op[1]]
+
+            def raising():
+                for x in xs:
+                    yield x
+                raise LookupError("the iterable failed")
+
+            before_len = len(model)
+            got = exp = None
+            try:
+                model.extend(raising())
+            except LookupError as e:
+                exp = type(e)
+            try:
+                if op[2]:
+                    tmp = obj
+                    tmp += raising()
+                else:
+                    obj.extend(raising())
+            except Exception as e:  # noqa
+                got = type(e)
+            if got is not exp:
+                v("list-model", "extend:exception", f"extend with a failing iterable raised {got}, a list raises {exp}")
+            if len(model) > before_len:
+                modified[0] = True
+                stats["edits"] += 1
         elif k == "reopen":
             obj.close()
             obj.open()
